@@ -113,3 +113,9 @@ func TestC01Huge(t *testing.T) {
 	defer st.Flush()
 	rapid.Check(t, c01Prop(st, FamHuge))
 }
+
+func TestC01Terms(t *testing.T) {
+	st := NewStats("C01Terms", c01Rule)
+	defer st.Flush()
+	rapid.Check(t, c01Prop(st, FamTerms))
+}
